@@ -58,6 +58,10 @@ def base_trees():
             L = 1 + (i * 7 + d * 3) % 140
             t[b"ix%d/%04d%s" % (d, i, b"n" * L)] = Node("slink", 0o777, target=b"t" * (i % 90)) if i % 3 else Node("fifo", 0o600)
     out.append(("indexed-dirs", t, {"with_index": True}))
+    # files smaller than a block stored as a block of their own (no fragments): block words vs. file size
+    t = {b"": Node("dir", 0o755), b"a": Node("file", 0o644, data=[("bytes", b"0123456789")]), b"b": Node("file", 0o644, data=[("rand", 1, 300)]),
+         b"c": Node("file", 0o644, data=[("rand", 2, 4095)]), b"d": Node("file", 0o644, data=[("bytes", b"x")])}
+    out.append(("small-files-no-frags", t, {"use_frags": False}))
     return out
 
 
@@ -147,6 +151,12 @@ def special_images(r):
                 except Exception:
                     continue
                 out.append(("inode-table-ends-inside-record:%s:%s:-%d" % (tree[q].type, "ext" if tree[q].xattrs else "basic", k), img))
+    # valid images whose xattr key+value lengths sweep the points where the decimal length prefix of a PAX record grows
+    for lo, hi in ((0, 130), (880, 1010), (9960, 10010)):
+        t = {b"": Node("dir", 0o755)}
+        for L in range(lo, hi):
+            t[b"x%05d" % L] = Node("file", 0o644, data=[], xattrs={b"user.ka": b"v" * L, b"user.kb": b"w" * L, b"user.kc": b"x" * L, b"user.second": b"y" * L})
+        out.append(("xattr-value-lengths-%d-%d" % (lo, hi), sqfsimg.build_image(t)[0]))
     # truncation at structure boundaries and random offsets
     t0 = base_trees()[0][1]
     img, fmap, info = sqfsimg.build_image(t0)
@@ -351,8 +361,23 @@ def main(tier):
         for nm in names:
             wcand += inst[nm]
     rep.extra["field_kinds"] = len(bykind)
+    rep.extra["walk_candidates_before_sampling"] = len(wcand)
     if tier == "quick" and len(wcand) > 9000:
-        wcand = r.sample(wcand, 9000)
+        # stratified: the off-by-one values of the chosen instance of every field kind are always kept
+        base_img = {}
+
+        def near(c):
+            bname, fname, off, size, v = c
+            if bname not in base_img:
+                bt1 = {b[0]: b for b in base_trees()}
+                base_img[bname] = sqfsimg.build_image(bt1[bname][1], **bt1[bname][2])[0]
+            orig = int.from_bytes(base_img[bname][off:off + size], "little")
+            mx = (1 << (8 * size)) - 1
+            return v in ((orig + 1) & mx, (orig - 1) & mx)
+        keep = [c for c in wcand if near(c)]
+        rest = [c for c in wcand if not near(c)]
+        wcand = keep + r.sample(rest, max(0, 9000 - len(keep)))
+        rep.extra["walk_off_by_one_images"] = len(keep)
     rep.extra["walk_images"] = len(wcand)
     witems = []
     for bname, fname, off, size, v in wcand:
@@ -375,8 +400,12 @@ def main(tier):
         root = os.path.join(work, "in")
         tree = base_trees()[0][1]
         t2 = {p: n for p, n in tree.items()}
+        t2[b"text"] = Node("file", 0o644, data=[("words", 7, 3 * 4096 + 100)])
+        for i in range(40):
+            t2[b"d/many%02d" % i] = Node("slink", 0o777, target=b"target-%d" % i) if i % 4 else Node("file", 0o644, data=[("bytes", b"%d" % i)], xattrs={b"user.n": b"%d" % i})
         gentree.materialise_dir(t2, root)
         titems = []
+        stream_items = []
         for comp in ("gzip", "xz", "lzma", "lz4", "zstd"):
             out = os.path.join(work, "t.sqfs")
             res = core.run_tool([B["gensquashfs"], "-q", "-f", "-c", comp, "-b", "4096", "-x", "-e", "-D", root, out], timeout=120)
@@ -384,6 +413,31 @@ def main(tier):
                 continue
             data = open(out, "rb").read()
             used = struct.unpack_from("<Q", data, 40)[0]
+            # engine 1c: the first bytes of every compressed stream (metadata blocks, data and fragment blocks): codec headers,
+            # property bytes, embedded uncompressed-size fields
+            try:
+                im = sqfsimg.parse(data, want_content=False)
+                streams = [(pos + 2, stored) for pos, (hdr, stored, unc) in sorted(im.meta_blocks.items()) if not hdr & 0x8000]
+                for pth, ino in im.tree.items():
+                    o = getattr(ino, "blocks_start", None)
+                    for w in getattr(ino, "block_words", None) or []:
+                        if w & 0xFFFFFF and not w & (1 << 24):
+                            streams.append((o, w & 0xFFFFFF))
+                        o += w & 0xFFFFFF
+                for fr in (im.frags or []):
+                    st, ln = fr[0], fr[1]
+                    if not ln & (1 << 24):
+                        streams.append((st, ln & 0xFFFFFF))
+            except Exception:
+                streams = []
+            rep.counters["compressed_streams:" + comp] = len(streams)
+            for st, ln in streams:
+                for o in range(min(16, ln)):
+                    orig = data[st + o]
+                    for v in sorted({0, 0xFF, orig ^ 0x80, (orig + 1) & 0xFF, (orig - 1) & 0xFF} - {orig}):
+                        b = bytearray(data)
+                        b[st + o] = v
+                        stream_items.append(("tool-%s:stream@%d+%d=%#x" % (comp, st, o, v), bytes(b)))
             n = 60 if tier == "quick" else 3000
             for k in range(n):
                 b = bytearray(data)
@@ -399,6 +453,12 @@ def main(tier):
                     b[pos:pos + 4] = struct.pack("<I", r.choice([0, 0xFFFFFFFF, 0x7FFFFFFF, r.getrandbits(32)]))
                 titems.append(("tool-%s:byte@%d" % (comp, pos), bytes(b), list(tree)))
     batches += [(i, "bytes", titems[k:k + per_batch], tier) for i, k in enumerate(range(0, len(titems), per_batch))]
+    rep.extra["stream_header_images"] = len(stream_items)
+    for oc in core.pmap(run_walk_batch, [(10000 + i, stream_items[k:k + 200], tier) for i, k in enumerate(range(0, len(stream_items), 200))]):
+        rep.add(oc)
+    cli_streams = r.sample(stream_items, min(len(stream_items), 120 if tier == "quick" else 3000))
+    batches += [(5000 + i, "bytes", [(n_, d_, list(tree)) for n_, d_ in cli_streams[k:k + per_batch]], tier) for i, k in enumerate(range(0, len(cli_streams), per_batch))]
+    del stream_items
     sp = [(n, d, [b"", b"a", b"b", b"a/a", b"f", b"d"]) for n, d in special_images(r)]
     batches += [(i, "special", sp[k:k + 4], tier) for i, k in enumerate(range(0, len(sp), 4))]
     for oc in core.pmap(run_batch, batches):
